@@ -27,6 +27,8 @@ func init() {
 		"select.one":     exSelectOne,
 		"go.select.rule": goSelectRule,
 		"go.select.one":  goSelectOne,
+		"selectmv.run":   exSelectMoving,
+		"go.selectmv":    goSelectMoving,
 	}
 	for k, v := range waitExec {
 		ex[k] = v
@@ -282,12 +284,159 @@ func goSelectOne(a []string) string {
 
 // genC13 interleaves the (timing-sensitive, slower) wait-protocol lines with the grid lines so that the
 // orchestrator's contiguous chunks carry equal shares of them.
+// ---------------------------------------------------------------------------------- selection against moving heads
+
+type mvRead struct {
+	conn  int
+	seqno uint32
+}
+
+// runMoving runs ONE real updateBest while heads move: a move "m<k>:<conn>:<seqno>" is a SetMasterHead(conn, seqno)
+// executed just before the k-th MasterHead() call (0-based) that updateBest makes through the conn interface (gate
+// "head"); every value updateBest reads is recorded (gate "head.done"). args: <strategy> <prev> <alive:seqno:rtt>...
+// m<k>:<conn>:<seqno>...
+func runMoving(a []string) (st string, prev int, ms []member, reads []mvRead, got int) {
+	st, prev = a[0], atoi(a[1])
+	var mem, moves []string
+	for _, x := range a[2:] {
+		if strings.HasPrefix(x, "m") {
+			moves = append(moves, x[1:])
+		} else {
+			mem = append(mem, x)
+		}
+	}
+	ms = parseMembers(mem)
+	s := newSelPool(st, len(ms))
+	for i, m := range ms {
+		s.set(i, m)
+	}
+	if prev >= len(ms) {
+		prev = -1
+	}
+	if prev < 0 {
+		s.p.VerifSetBest(nil)
+	} else {
+		s.p.VerifSetBest(s.vs[prev])
+	}
+	calls := 0
+	active := true
+	for _, v := range s.vs {
+		v.VerifSetGate(func(point string, id int) {
+			if !active {
+				return
+			}
+			switch point {
+			case "head":
+				for _, mv := range moves {
+					f := strings.Split(mv, ":")
+					if atoi(f[0]) == calls {
+						q, _ := strconv.ParseUint(f[2], 10, 32)
+						s.vs[atoi(f[1])].SetMasterHead(pool.VerifHead(uint32(q)))
+					}
+				}
+				calls++
+			case "head.done":
+				reads = append(reads, mvRead{id, s.vs[id].VerifHeadSeqno()})
+			}
+		})
+	}
+	s.p.VerifUpdateBest()
+	active = false
+	return st, prev, ms, reads, s.p.VerifBestID()
+}
+
+// selectmv.run ...  ->  ok <chosen id | -1>   (compared with the transition system PoolSM running the same moves)
+func exSelectMoving(a []string) string {
+	_, _, _, _, got := runMoving(a)
+	return fmt.Sprintf("ok %d", got)
+}
+
+// go.selectmv: the property's rule against moving heads, judged on what the refresh itself has read: the chosen
+// member must be alive and at most one block behind the NEWEST head the pool read during this refresh (whichever
+// pass read it), with the strategy's order among such members; none such: previous choice kept.
+func goSelectMoving(a []string) string {
+	st, prev, ms, reads, got := runMoving(a)
+	last := make([]int64, len(ms))
+	for i := range last {
+		last[i] = -1
+	}
+	var max uint64
+	for _, r := range reads {
+		last[r.conn] = int64(r.seqno)
+		if uint64(r.seqno) > max {
+			max = uint64(r.seqno)
+		}
+	}
+	want := prev
+	if st == pool.BestPingStrategy || st == pool.FirstWorkingConnection {
+		best := -1
+		for i, m := range ms {
+			if !m.alive || last[i] < 0 || uint64(last[i])+1 < max {
+				continue
+			}
+			if st == pool.FirstWorkingConnection {
+				best = i
+				break
+			}
+			if best < 0 || m.rtt < ms[best].rtt {
+				best = i
+			}
+		}
+		if best >= 0 {
+			want = best
+		}
+	}
+	if got != want {
+		return fmt.Sprintf("FAIL rule-moving got=%d want=%d newest-head-read=%d reads(conn:seqno)=%v", got, want, max, reads)
+	}
+	return "ok"
+}
+
+func genSelectMoving(g *h.G, out func(op string, args ...string)) {
+	emit := func(args ...string) {
+		out("selectmv.run", args...)
+		out("go.selectmv", args...)
+		g.NonTrivial("moving " + strings.Join(args, " "))
+	}
+	// the two-pass witness: after the max pass member 1 moves 10 -> 12 and member 0 moves 5 -> 9
+	emit(pool.BestPingStrategy, "-1", "1:5:1", "1:10:2", "m2:1:12", "m2:0:9")
+	emit(pool.FirstWorkingConnection, "1", "1:5:1", "1:10:2", "m2:1:12", "m2:0:9")
+	n := g.Scale(300, 6000)
+	for k := 0; k < n; k++ {
+		nc := 1 + g.Rng.Intn(4)
+		base := uint32(g.Rng.Intn(6))
+		if g.Rng.Intn(10) == 0 {
+			base = 0xFFFFFFF0
+		}
+		args := []string{[]string{pool.BestPingStrategy, pool.FirstWorkingConnection}[g.Rng.Intn(2)], fmt.Sprint(g.Rng.Intn(nc+1) - 1)}
+		heads := make([]uint32, nc)
+		for i := 0; i < nc; i++ {
+			heads[i] = base + uint32(g.Rng.Intn(4))
+			alive := 1
+			if g.Rng.Intn(5) == 0 {
+				alive = 0
+			}
+			args = append(args, fmt.Sprintf("%d:%d:%d", alive, heads[i], 1+g.Rng.Intn(3)))
+		}
+		nm := g.Rng.Intn(6)
+		for j := 0; j < nm; j++ {
+			c := g.Rng.Intn(nc)
+			heads[c] += uint32(1 + g.Rng.Intn(3))
+			args = append(args, fmt.Sprintf("m%d:%d:%d", g.Rng.Intn(2*nc+1), c, heads[c]))
+		}
+		g.Count(fmt.Sprintf("moving_members_%d", nc))
+		emit(args...)
+	}
+}
+
 func genC13(g *h.G) {
 	var q []func()
-	genWait(g, func(op string, args ...string) {
+	collect := func(op string, args ...string) {
 		a := append([]string{}, args...)
 		q = append(q, func() { g.Emit(op, a...) })
-	})
+	}
+	genSelectMoving(g, collect)
+	genWait(g, collect)
 	n := 0
 	genSelect(g, func() {
 		n++
